@@ -4,6 +4,7 @@
 
 from __future__ import annotations
 
+import copy
 import dataclasses
 import importlib.resources
 import re
@@ -148,7 +149,6 @@ class ScatteringParams:
         )
 
     @staticmethod
-    @lru_cache
     def for_isotope(isotope: str) -> ScatteringParams:
         """Return the scattering parameters for the given element / isotope.
 
@@ -163,10 +163,8 @@ class ScatteringParams:
         :
             Neutron scattering parameters.
         """
-        with _open_bundled_parameters_file('scattering_parameters.csv') as f:
-            if line_remainder := _find_line_with_isotope(isotope, f):
-                return ScatteringParams._parse_line(isotope, line_remainder)
-        raise ValueError(f"No entry for element / isotope '{isotope}'")
+        # Hand out a copy so that callers cannot modify the cached variables.
+        return copy.deepcopy(_load_scattering_params(isotope))
 
     @staticmethod
     def _parse_line(isotope: str, line: str) -> ScatteringParams:
@@ -186,6 +184,14 @@ class ScatteringParams:
             total_scattering_cross_section=_assemble_scalar(line[12], line[13], 'barn'),
             absorption_cross_section=_assemble_scalar(line[14], line[15], 'barn'),
         )
+
+
+@lru_cache
+def _load_scattering_params(isotope: str) -> ScatteringParams:
+    with _open_bundled_parameters_file('scattering_parameters.csv') as f:
+        if line_remainder := _find_line_with_isotope(isotope, f):
+            return ScatteringParams._parse_line(isotope, line_remainder)
+    raise ValueError(f"No entry for element / isotope '{isotope}'")
 
 
 def _open_bundled_parameters_file(name: str) -> TextIO:
